@@ -19,7 +19,15 @@ template<typename T> struct laplace_kernel {   // exp(-L1 distance)
 template<typename T> struct compact_kernel {   // Epanechnikov-like: max(0, 1 - d^2 / 4), zero beyond distance 2
   T operator()(const std::vector<T>& a, const std::vector<T>& b) const { T d = 0; for (size_t i = 0; i < a.size(); ++i) d += (a[i] - b[i]) * (a[i] - b[i]); return std::max<T>(0, 1 - d / 4); }
 };
+template<typename T> struct bandwidth_kernel {   // stateful: exp(-d^2 / (2 h^2)); default h = 1, monitors use h != 1
+  T h;
+  explicit bandwidth_kernel(T bw = 1): h(bw) {}
+  T operator()(const std::vector<T>& a, const std::vector<T>& b) const { T d = 0; for (size_t i = 0; i < a.size(); ++i) d += (a[i] - b[i]) * (a[i] - b[i]); return std::exp(-d / (2 * h * h)); }
+};
+template<typename K> K make_kernel(Rng&) { return K(); }
+template<> bandwidth_kernel<double> make_kernel<bandwidth_kernel<double>>(Rng& r) { static const double hs[] = {0.25, 0.5, 2.0, 4.0}; return bandwidth_kernel<double>(hs[r.below(4)]); }
 template<typename K> const char* kname();
+template<> const char* kname<bandwidth_kernel<double>>() { return "bandwidth-f64"; }
 template<> const char* kname<gaussian_kernel<float>>() { return "gauss-f32"; }
 template<> const char* kname<gaussian_kernel<double>>() { return "gauss-f64"; }
 template<> const char* kname<laplace_kernel<float>>() { return "laplace-f32"; }
@@ -141,7 +149,7 @@ static void observe(const density_sketch<T, K>& s, const Model<T>& m, Rng& r, co
 template<typename T, typename K>
 static void program(Rng& r) {
   const bool TH = G().thorough();
-  const K kern{};
+  const K kern = make_kernel<K>(r);
   const uint16_t k = uint16_t(r.chance(0.6) ? r.range(2, 16) : r.range(17, TH ? 200 : 60));
   const uint32_t dim = uint32_t(r.chance(0.7) ? r.range(1, 4) : r.range(5, 12));
   const int nleaves = 1 + int(r.below(4));
@@ -202,7 +210,8 @@ static void program(Rng& r) {
 }
 
 void run_case(uint64_t, Rng& r) {
-  switch (r.below(5)) {
+  switch (r.below(6)) {
+    case 5: program<double, bandwidth_kernel<double>>(r); count("stateful_kernel_programs"); break;
     case 0: program<float, gaussian_kernel<float>>(r); break;
     case 1: program<double, gaussian_kernel<double>>(r); break;
     case 2: program<float, laplace_kernel<float>>(r); break;
